@@ -478,6 +478,47 @@ def r_pool_run_is_transparent(rule, root=None):
         rule.ok("ThreadPool::run only installs / calls the closure", file=CFG, line=fn["ln"])
 
 
+
+def r3d_fresh_tile_buffer(rule, root=None):
+    """a worker renders many root tiles one after another (which ones depends on the pool and on scheduling): the
+    image it fills for a tile must start blank and be handed back whole - a buffer kept from an earlier tile makes a
+    tile's pixels depend on what the same worker rendered before"""
+    for path, label in (("fidget-raster/src/voxel.rs", "3D"), ("fidget-raster/src/pixel.rs", "2D")):
+        fn = A.find_fn(path, "render_tile", self_ty="Worker", root=root)
+        body = fn["body"]
+        stmts = A.stmts_of(body)
+        # the buffer: the self field that is assigned an Image::new(..)
+        fresh = []
+        for a_ in A.find(body, "Assign"):
+            l_ = str(A.ftxt(a_["left"]))
+            if l_.startswith("self.") and "Image::new(" in str(A.ftxt(a_["right"])):
+                fresh.append((l_, a_))
+        if len(fresh) != 1:
+            rule.bad("%s|fresh" % label, "%s render_tile must start every tile from a new blank image (`self.<buffer> = Image::new(..)` exactly once); found %d such assignments" % (label, len(fresh)), A.where(fn))
+            continue
+        buf, node = fresh[0]
+        conds = A.enclosing_conds(body, node) or []
+        top = any((A.stmt_expr(s_) is not None and A.strip(A.stmt_expr(s_)) is node) for s_ in stmts)
+        first_use = None
+        for i_, s_ in enumerate(stmts):
+            if A.stmt_expr(s_) is not None and A.strip(A.stmt_expr(s_)) is node:
+                first_use = i_
+        if conds or not top:
+            rule.bad("%s|conditional" % label, "%s render_tile re-creates its tile image only under `%s`: a buffer kept from the previous tile carries that tile's pixels (and its `already filled` state) into this one" % (label, " && ".join(conds) or "a nested block"), A.where(path, node))
+            continue
+        # nothing that renders runs before it
+        early = [c for s_ in stmts[: first_use or 0] for c in A.find(s_, "MethodCall") if c["method"].startswith("render_tile")]
+        if early:
+            rule.bad("%s|order" % label, "%s render_tile renders before it resets its tile image" % label, A.where(path, node))
+            continue
+        rule.ok("%s worker: every root tile starts from a new blank image" % label, file=path, line=node["ln"])
+        res = [str(A.ftxt(l_)) for l_, _c in A.result_cases(body)]
+        want = "std::mem::take(&mut%s)" % buf
+        if res and all(r_ in (want, "mem::take(&mut%s)" % buf, "std::mem::replace(&mut%s,Image::default())" % buf, "std::mem::replace(&mut%s,Default::default())" % buf) for r_ in res):
+            rule.ok("%s worker: the tile's image is handed back whole on every path" % label, file=path, line=fn["ln"])
+        else:
+            rule.bad("%s|result" % label, "%s render_tile must return the image it filled on every path (`%s`); found %s - a tile answered with an empty image loses what the interval fast paths filled in" % (label, want, res), A.where(fn))
+
 def run(ctx):
     r = ctx.rule("R1", "an abort originates only from the cancel token (or a child's abort) and turns the whole result into None", 16)
     ctx.guarded(r, r1_cancellation)
@@ -500,6 +541,8 @@ def run(ctx):
     ctx.guarded(r, r3_per_thread_state)
     r = ctx.rule("R3b", "pooled and serial image post-processing chunk the buffer identically", 3)
     ctx.guarded(r, R.r_effect_siblings)
+    r = ctx.rule("R3e", "a render worker starts every root tile from a new blank image and hands it back whole (no buffer carried from tile to tile)", 4)
+    ctx.guarded(r, r3d_fresh_tile_buffer)
     r = ctx.rule("R4", "multithreaded merge offsets (= C08.R2)", 12)
     ctx.guarded(r, r2_merge_offsets)
     r = ctx.rule("R5", "a pooled build splits and collapses exactly like the serial one (split bound, leaf depth, collapse anywhere in the array)", 3)
